@@ -115,6 +115,19 @@ def h_trxd_fwd(ctx, L, dver):
         ctx.check('queue-drained', len(trx._tx_queue) == 0, n=len(trx._tx_queue))
         ctx.check('peer:at-most-one-datagram', len(dst.data_if.sock.sent) <= 1, n=len(dst.data_if.sock.sent))
         ctx.check('nothing-back-to-sender', len(trx.data_if.sock.sent) == 0)
+        # ... and the transceiver goes on serving: a well-formed burst that arrives afterwards is put on the air in its frame
+        n0 = len(dst.data_if.sock.sent)
+        m2 = T.data_msg.TxMsg(fn=ctx.int('next.fn', 0, HYPER - 1), tn=ctx.int('next.tn', 0, 7), ver=hv)
+        m2.pwr = 0; m2.burst = mk_bytearray(ctx, [1, 0] * 74)
+        d2 = m2.gen_msg()
+        trx.data_if.sock.inject(d2 if ctx.mode == 'sym' else bytes(d2))
+        rec = []
+        class Rec:
+            def forward_msg(self, src, msg): rec.append(msg)
+        with ctx.no_raise('next-burst:no-exception'):
+            r2 = trx.recv_data_msg()
+            trx.clck_tick(Rec(), m2.fn)
+        ctx.check('next-burst:emitted-in-its-frame', sum(1 for x in rec if x is r2) == 1, n=len(rec))
 
 
 def h_parse_only(ctx, cls, L):
